@@ -11,7 +11,7 @@ Open Scope N_scope.
 
 (* ---------- big-endian bytes of a value: inverse direction ---------- *)
 Lemma be_value_snoc m x : be_value (m ++ [x]) = be_value m * 256 + x.
-Proof. unfold be_value. rewrite be_acc_app. reflexivity. Qed.
+Proof. unfold be_value. rewrite be_acc_app. cbn [be_acc]. lia. Qed.
 
 Lemma be_bytes_of_be_value m : wf_bytes m = true -> be_bytes_of (length m) (be_value m) = m.
 Proof.
